@@ -1,10 +1,19 @@
 import Inkayaku.Model.Pgn
 import Inkayaku.Spec.PgnLayout
 /-!
-# C17 – PGN stream reader
+# C17 – PGN stream reader (`pgn/src/reader.rs`, model `Inkayaku.Pgn`, layout `Inkayaku.PgnLayout`)
 
-Part 1 (`chunk_independent`): the parser sees the same bytes through the buffered reader as in the plain input,
-for every chunk size ≥ 1 and every fragmentation schedule with entries ≥ 1.
+* Part 1 `reader_bytes`, `chunk_independent` (fully proved): through `ensure_buffer`/`increment_byte` the parser
+  sees exactly the input bytes, for every chunk size ≥ 1 and every fragmentation schedule with entries ≥ 1
+  (invariant `buf[cur..] ++ rest = remaining stream`, `Inv`: the buffer only shrinks, and to 0 only at EOF).
+* `fuel_adequate` (fully proved): the loop fuel `input.length + 1` of the model never runs out.
+* Part 2 `parse_render` (fully proved, for the whole layout – no sub-layout restriction): for every well-formed
+  list of games, reading the printed database yields exactly the games.
+* `c17` combines them for the buffered reader.
+* kernel-evaluated examples on concrete multi-game texts at the end.
+
+Not covered here: replaying the SAN tokens on a board (C14); the tokens are yielded verbatim.
+(The helper lemmas live in this file because the task allowed only the three C17 files.)
 -/
 namespace Inkayaku.C17
 open Inkayaku.Pgn
@@ -175,5 +184,1197 @@ example : readAllBuffered 3 (fun k => [2, 1, 5].getD (k % 3) 1) "[a \"b\"]\n\ne4
     | 0, _ => decide
     | 1, _ => decide
     | 2, _ => decide)
+
+/-! ## Programs on the plain byte list -/
+
+abbrev Bytes := List UInt8
+
+@[simp] theorem run_ret {α : Type} (a : α) (l : Bytes) : run (Prog.ret a) l = (a, l) := rfl
+theorem run_step_nil {α : Type} (inc : Option UInt8 → Bool) (k : Option UInt8 → Prog α) :
+    run (Prog.step inc k) ([] : Bytes) = run (k none) ([] : Bytes) := rfl
+theorem run_step_cons {α : Type} (inc : Option UInt8 → Bool) (k : Option UInt8 → Prog α) (b : UInt8) (t : Bytes) :
+    run (Prog.step inc k) (b :: t) = run (k (some b)) (if inc (some b) then t else b :: t) := rfl
+
+theorem run_pbind {σ : Type} [Source σ] {α β : Type} (p : Prog α) (f : α → Prog β) :
+    ∀ s : σ, run (p.bind f) s = run (f (run p s).1) (run p s).2 := by
+  induction p with
+  | ret a => intro s; rfl
+  | step inc k ih =>
+    intro s
+    simp only [Prog.bind, run]
+    split <;> simp [ih]
+
+@[simp] theorem run_mpure {α : Type} (a : α) (l : Bytes) : run (M.pure a : M α) l = (.ok a, l) := rfl
+@[simp] theorem run_throw {α : Type} (e : Err) (l : Bytes) : run (M.throw e : M α) l = (.error e, l) := rfl
+
+theorem run_mbind {α β : Type} (p : M α) (f : α → M β) (l : Bytes) :
+    run (p >>=ₑ f) l = match run p l with
+      | (.ok a, l') => run (f a) l'
+      | (.error e, l') => (.error e, l') := by
+  show run (Prog.bind p _) l = _
+  rw [run_pbind]
+  generalize run p l = r
+  obtain ⟨r, l'⟩ := r
+  cases r <;> rfl
+
+@[simp] theorem run_peekByte_nil : run peekByte ([] : Bytes) = (.error .closed, []) := rfl
+@[simp] theorem run_peekByte_cons (b : UInt8) (t : Bytes) : run peekByte (b :: t) = (.ok b, b :: t) := rfl
+@[simp] theorem run_popByte_nil : run popByte ([] : Bytes) = (.error .closed, []) := rfl
+@[simp] theorem run_popByte_cons (b : UInt8) (t : Bytes) : run popByte (b :: t) = (.ok b, t) := rfl
+@[simp] theorem run_skipByte_nil : run skipByte ([] : Bytes) = (.error .closed, []) := rfl
+@[simp] theorem run_skipByte_cons (b : UInt8) (t : Bytes) : run skipByte (b :: t) = (.ok (), t) := rfl
+
+theorem run_consume_nil (c : UInt8) : run (consume c) ([] : Bytes) = (.error .closed, []) := by
+  simp [consume, run_mbind]
+theorem run_consume_cons (c b : UInt8) (t : Bytes) :
+    run (consume c) (b :: t) = (if b = c then .ok () else .error .consume, t) := by
+  simp only [consume, run_mbind, run_popByte_cons]
+  split <;> simp
+
+theorem run_mbind_ok {α β : Type} {p : M α} {f : α → M β} {l l' : Bytes} {a : α}
+    (h : run p l = (.ok a, l')) : run (p >>=ₑ f) l = run (f a) l' := by
+  rw [run_mbind, h]
+theorem run_mbind_err {α β : Type} {p : M α} {f : α → M β} {l l' : Bytes} {e : Err}
+    (h : run p l = (.error e, l')) : run (p >>=ₑ f) l = (.error e, l') := by
+  rw [run_mbind, h]
+
+theorem run_attempt {α : Type} (p : M α) (l : Bytes) :
+    run (M.attempt p) l = (.ok (run p l).1, (run p l).2) := by
+  simp [M.attempt, run_pbind]
+
+/-- a program never un-reads: what is left is no longer than what it started with -/
+theorem run_length_le {α : Type} (p : Prog α) : ∀ l : Bytes, (run p l).2.length ≤ l.length := by
+  induction p with
+  | ret a => intro l; simp
+  | step inc k ih =>
+    intro l
+    cases l with
+    | nil => rw [run_step_nil]; exact ih none []
+    | cons b t =>
+      rw [run_step_cons]
+      split
+      · exact Nat.le_trans (ih _ t) (by simp)
+      · exact ih _ _
+
+/-! ### The byte-level loops on the plain byte list (for any sufficient fuel) -/
+
+def isSp (c : UInt8) : Bool := c = SP
+def isNl (c : UInt8) : Bool := c = NL
+def isBlank (c : UInt8) : Bool := c = NL || c = SP
+
+theorem skipSpaces_spec : ∀ (n : Nat) (l : Bytes), l.length < n →
+    run (skipSpaces n) l = (if l.dropWhile isSp = [] then .error .closed else .ok (), l.dropWhile isSp) := by
+  intro n
+  induction n with
+  | zero => intro l h; omega
+  | succ n ih =>
+    intro l h
+    cases l with
+    | nil => simp [skipSpaces, run_mbind]
+    | cons b t =>
+      simp only [skipSpaces, run_mbind, run_peekByte_cons]
+      by_cases hb : b = SP
+      · simp only [hb, if_true, run_mbind, run_skipByte_cons]
+        rw [ih t (by simpa using h)]
+        simp [isSp]
+      · simp [hb, isSp]
+
+theorem skipBlankLines_spec : ∀ (n : Nat) (l : Bytes), l.length < n →
+    run (skipBlankLines n) l = (if l.dropWhile isNl = [] then .error .closed else .ok (), l.dropWhile isNl) := by
+  intro n
+  induction n with
+  | zero => intro l h; omega
+  | succ n ih =>
+    intro l h
+    cases l with
+    | nil => simp [skipBlankLines, run_mbind]
+    | cons b t =>
+      simp only [skipBlankLines, run_mbind, run_peekByte_cons]
+      by_cases hb : b = NL
+      · simp only [hb, if_true, run_mbind, run_skipByte_cons]
+        rw [ih t (by simpa using h)]
+        simp [isNl]
+      · simp [hb, isNl]
+
+theorem skipBLS_spec : ∀ (n : Nat) (l : Bytes), l.length < n →
+    run (skipBlankLinesAndSpaces n) l =
+      (if l.dropWhile isBlank = [] then .error .closed else .ok (), l.dropWhile isBlank) := by
+  intro n
+  induction n with
+  | zero => intro l h; omega
+  | succ n ih =>
+    intro l h
+    cases l with
+    | nil => simp [skipBlankLinesAndSpaces, run_mbind]
+    | cons b t =>
+      simp only [skipBlankLinesAndSpaces, run_mbind, run_peekByte_cons]
+      by_cases hb : b = NL
+      · simp only [hb, if_true, run_mbind, run_skipByte_cons]
+        rw [ih t (by simpa using h)]
+        simp [isBlank]
+      · by_cases hb2 : b = SP
+        · rw [if_neg hb]
+          simp only [run_mbind, run_peekByte_cons]
+          rw [if_pos hb2]
+          simp only [run_mbind, run_skipByte_cons]
+          rw [ih t (by simpa using h)]
+          simp [isBlank, hb2]
+        · rw [if_neg hb]
+          simp only [run_mbind, run_peekByte_cons]
+          rw [if_neg hb2]
+          simp [hb, hb2, isBlank]
+
+def notNl (c : UInt8) : Bool := c ≠ NL
+
+theorem skipToNextLine_spec : ∀ (n : Nat) (l : Bytes), l.length < n →
+    run (skipToNextLine n) l =
+      (if l.dropWhile notNl = [] then .error .closed else .ok (), (l.dropWhile notNl).tail) := by
+  intro n
+  induction n with
+  | zero => intro l h; omega
+  | succ n ih =>
+    intro l h
+    cases l with
+    | nil => simp [skipToNextLine, run_mbind]
+    | cons b t =>
+      simp only [skipToNextLine, run_mbind, run_popByte_cons]
+      by_cases hb : b = NL
+      · simp [hb, notNl]
+      · simp only [ne_eq, hb, not_false_eq_true, if_true]
+        rw [ih t (by simpa using h)]
+        simp [notNl, hb]
+
+theorem readUntilLoop_spec (c : UInt8) : ∀ (n : Nat) (acc : Bytes) (b : UInt8) (t : Bytes), (b :: t).length < n →
+    run (readUntilLoop c n acc b) (b :: t) =
+      (if (b :: t).dropWhile (· ≠ c) = [] then .error .closed else .ok (acc ++ (b :: t).takeWhile (· ≠ c)),
+       (b :: t).dropWhile (· ≠ c)) := by
+  intro n
+  induction n with
+  | zero => intro acc b t h; omega
+  | succ n ih =>
+    intro acc b t h
+    by_cases hb : b = c
+    · simp [readUntilLoop, hb]
+    · simp only [readUntilLoop, ne_eq, hb, not_false_eq_true, if_true, run_mbind, run_skipByte_cons]
+      cases t with
+      | nil => simp [hb]
+      | cons b' t' =>
+        simp only [run_peekByte_cons]
+        rw [ih _ b' t' (by simpa using h)]
+        simp [hb]
+
+theorem readUntil_spec (c : UInt8) (n : Nat) (l : Bytes) (h : l.length < n) :
+    run (readUntil n c) l =
+      (if l.dropWhile (· ≠ c) = [] then .error .closed else .ok (l.takeWhile (· ≠ c)), l.dropWhile (· ≠ c)) := by
+  cases l with
+  | nil => simp [readUntil, run_mbind]
+  | cons b t =>
+    simp only [readUntil, run_mbind, run_peekByte_cons]
+    rw [readUntilLoop_spec c n [] b t h]
+    simp
+
+theorem readTokenLoop_spec : ∀ (n : Nat) (acc : Bytes) (l : Bytes), l.length < n →
+    run (readTokenLoop n acc) l = (acc ++ l.takeWhile (fun c => !isBlank c), l.dropWhile (fun c => !isBlank c)) := by
+  intro n
+  induction n with
+  | zero => intro acc l h; omega
+  | succ n ih =>
+    intro acc l h
+    cases l with
+    | nil => simp [readTokenLoop, run_step_nil]
+    | cons b t =>
+      simp only [readTokenLoop, run_step_cons]
+      by_cases hb : (b = SP || b = NL) = true
+      · have hb' : isBlank b = true := by simp [isBlank] at hb ⊢; exact hb.symm
+        simp [hb, hb']
+      · have hb' : isBlank b = false := by simp [isBlank] at hb ⊢; exact ⟨hb.2, hb.1⟩
+        simp only [hb, Bool.not_false, if_true, Bool.false_eq_true, if_false]
+        rw [ih _ t (by simpa using h)]
+        simp [hb']
+
+theorem readToken_spec (n : Nat) (l : Bytes) (h : l.length < n) :
+    run (readToken n) l = (.ok (l.takeWhile (fun c => !isBlank c)), l.dropWhile (fun c => !isBlank c)) := by
+  simp [readToken, run_pbind, readTokenLoop_spec n [] l h]
+
+/-! ### Fuel adequacy: any fuel above the input length gives the same run -/
+
+def Stable {α : Type} (p : Nat → Prog α) : Prop :=
+  ∀ (l : Bytes) (n m : Nat), l.length < n → l.length < m → run (p n) l = run (p m) l
+
+theorem stable_const {α : Type} (p : Prog α) : Stable (fun _ => p) := fun _ _ _ _ _ => rfl
+
+theorem stable_pbind {α β : Type} {p : Nat → Prog α} {q : Nat → α → Prog β}
+    (hp : Stable p) (hq : ∀ a, Stable (fun n => q n a)) : Stable (fun n => (p n).bind (q n)) := by
+  intro l n m hn hm
+  simp only [run_pbind]
+  rw [hp l n m hn hm]
+  have := run_length_le (p m) l
+  exact hq _ _ n m (by omega) (by omega)
+
+theorem stable_mbind {α β : Type} {p : Nat → M α} {q : Nat → α → M β}
+    (hp : Stable p) (hq : ∀ a, Stable (fun n => q n a)) : Stable (fun n => p n >>=ₑ q n) := by
+  unfold M.bind
+  refine stable_pbind hp ?_
+  intro r
+  cases r with
+  | error e => exact stable_const _
+  | ok a => exact hq a
+
+theorem stable_ite {α : Type} (c : Prop) [Decidable c] {p q : Nat → Prog α}
+    (hp : Stable p) (hq : Stable q) : Stable (fun n => if c then p n else q n) := by
+  by_cases h : c
+  · simpa [h] using hp
+  · simpa [h] using hq
+
+theorem stable_attempt {α : Type} {p : Nat → M α} (hp : Stable p) : Stable (fun n => M.attempt (p n)) :=
+  stable_pbind hp fun _ => stable_const _
+
+theorem stable_skipSpaces : Stable skipSpaces := fun l n m hn hm => by
+  rw [skipSpaces_spec n l hn, skipSpaces_spec m l hm]
+theorem stable_skipBlankLines : Stable skipBlankLines := fun l n m hn hm => by
+  rw [skipBlankLines_spec n l hn, skipBlankLines_spec m l hm]
+theorem stable_skipBLS : Stable skipBlankLinesAndSpaces := fun l n m hn hm => by
+  rw [skipBLS_spec n l hn, skipBLS_spec m l hm]
+theorem stable_skipToNextLine : Stable skipToNextLine := fun l n m hn hm => by
+  rw [skipToNextLine_spec n l hn, skipToNextLine_spec m l hm]
+theorem stable_readUntil (c : UInt8) : Stable (fun n => readUntil n c) := fun l n m hn hm => by
+  rw [readUntil_spec c n l hn, readUntil_spec c m l hm]
+theorem stable_readToken : Stable readToken := fun l n m hn hm => by
+  rw [readToken_spec n l hn, readToken_spec m l hm]
+
+theorem stable_readTagValue : Stable readTagValue :=
+  stable_mbind (stable_const _) fun _ =>
+  stable_mbind (stable_attempt (stable_readUntil 34)) fun _ => stable_const _
+
+theorem stable_readTagPairLine : Stable readTagPairLine :=
+  stable_mbind (stable_const _) fun _ =>
+  stable_mbind (stable_readUntil SP) fun _ =>
+  stable_mbind (stable_const _) fun _ =>
+  stable_mbind stable_readTagValue fun _ => stable_const _
+
+theorem stable_readBraced : Stable readBracedAnnotation :=
+  stable_mbind (stable_const _) fun _ =>
+  stable_mbind (stable_attempt (stable_readUntil 125)) fun _ => stable_const _
+
+theorem stable_readSemicolon : Stable readSemicolonAnnotation :=
+  stable_mbind (stable_const _) fun _ =>
+  stable_mbind (stable_attempt (stable_readUntil NL)) fun _ => stable_const _
+
+theorem stable_readMove : Stable readMove :=
+  stable_mbind stable_skipBLS fun _ =>
+  stable_mbind stable_readToken fun _ =>
+  stable_ite _ (stable_const _) <|
+  stable_mbind (stable_ite _ (stable_mbind stable_skipSpaces fun _ => stable_readToken) (stable_const _)) fun _ =>
+  stable_mbind stable_skipSpaces fun _ =>
+  stable_mbind (stable_const _) fun _ =>
+  stable_mbind
+    (stable_ite _ (stable_mbind stable_readBraced fun _ => stable_const _) <|
+     stable_ite _ (stable_mbind stable_readSemicolon fun _ => stable_const _) (stable_const _))
+    fun _ => stable_const _
+
+/-- a program that starts with `consume` and succeeds has consumed at least one byte -/
+theorem consume_bind_decreases {α : Type} (c : UInt8) (f : Unit → M α) (l l' : Bytes) (a : α)
+    (h : run (consume c >>=ₑ f) l = (.ok a, l')) : l'.length < l.length := by
+  cases l with
+  | nil => simp [run_mbind, run_consume_nil] at h
+  | cons b t =>
+    rw [run_mbind, run_consume_cons] at h
+    by_cases hb : b = c
+    · simp only [hb, if_true] at h
+      have := run_length_le (f ()) t
+      rw [h] at this
+      simp at this ⊢; omega
+    · simp [hb] at h
+
+theorem readTagPairLine_decreases (N : Nat) (l l' : Bytes) (kv : Bytes × Bytes)
+    (h : run (readTagPairLine N) l = (.ok kv, l')) : l'.length < l.length :=
+  consume_bind_decreases _ _ _ _ _ h
+
+theorem stable_readTagPairsLoop : ∀ (k k' N N' : Nat) (acc : List (Bytes × Bytes)) (l : Bytes),
+    l.length < k → l.length < k' → l.length < N → l.length < N' →
+    run (readTagPairsLoop N k acc) l = run (readTagPairsLoop N' k' acc) l := by
+  intro k
+  induction k with
+  | zero => intro k' N N' acc l h; omega
+  | succ k ih =>
+    intro k' N N' acc l hk hk' hN hN'
+    cases k' with
+    | zero => omega
+    | succ k' =>
+      cases l with
+      | nil => simp [readTagPairsLoop, run_mbind]
+      | cons b t =>
+        simp only [readTagPairsLoop, run_mbind, run_peekByte_cons]
+        by_cases hb : b = 91
+        · simp only [hb, if_true, run_mbind]
+          rw [← hb, stable_readTagPairLine (b :: t) N N' hN hN']
+          generalize hr : run (readTagPairLine N') (b :: t) = r
+          obtain ⟨r, l'⟩ := r
+          cases r with
+          | error e => rfl
+          | ok kv =>
+            have hd := readTagPairLine_decreases _ _ _ _ hr
+            simp only [List.length_cons] at hd hk hk' hN hN'
+            exact ih k' N N' _ l' (by omega) (by omega) (by omega) (by omega)
+        · simp [hb]
+
+theorem stable_readTagPairs : Stable readTagPairs := fun l n m hn hm =>
+  stable_readTagPairsLoop n m n m [] l hn hm hn hm
+
+theorem length_dropWhile_le (p : UInt8 → Bool) (l : Bytes) : (l.dropWhile p).length ≤ l.length :=
+  (List.dropWhile_sublist p).length_le
+
+theorem dropWhile_isBlank_head (l : Bytes) (c : UInt8) (t : Bytes) (h : l.dropWhile isBlank = c :: t) :
+    isBlank c = false := by
+  have := List.head_dropWhile_not isBlank (l := l) (by simp [h])
+  simpa [h] using this
+
+theorem readMove_decreases (N : Nat) (l l' : Bytes) (mv : RawMove) (hN : l.length < N)
+    (h : run (readMove N) l = (.ok (some mv), l')) : l'.length < l.length := by
+  unfold readMove at h
+  rw [run_mbind, skipBLS_spec N l hN] at h
+  generalize hd : l.dropWhile isBlank = d at h
+  cases d with
+  | nil => simp at h
+  | cons c t =>
+    have hc := dropWhile_isBlank_head l c t hd
+    have hlen : (c :: t).length ≤ l.length := by rw [← hd]; exact length_dropWhile_le _ _
+    simp only [reduceCtorEq, if_false] at h
+    rw [run_mbind, readToken_spec N (c :: t) (by omega)] at h
+    simp only at h
+    have h2 : ((c :: t).dropWhile (fun c => !isBlank c)).length ≤ t.length := by
+      simp only [List.dropWhile_cons, hc, Bool.not_false, if_true]
+      exact length_dropWhile_le _ _
+    have h3 := run_length_le
+      (if isResultToken ((c :: t).takeWhile (fun c => !isBlank c)) then M.pure none
+       else
+        (if ((c :: t).takeWhile (fun c => !isBlank c)).contains 46 then skipSpaces N >>ₑ readToken N
+          else M.pure ((c :: t).takeWhile (fun c => !isBlank c))) >>=ₑ fun mv =>
+        skipSpaces N >>ₑ
+        peekByte >>=ₑ fun byte =>
+        (if byte = 123 then readBracedAnnotation N >>=ₑ fun a => M.pure (some a)
+         else if byte = 59 then readSemicolonAnnotation N >>=ₑ fun a => M.pure (some a)
+         else M.pure none) >>=ₑ fun annotation =>
+        M.pure (some (⟨mv, annotation⟩ : RawMove)))
+      ((c :: t).dropWhile (fun c => !isBlank c))
+    rw [h] at h3
+    simp only [List.length_cons] at hlen h3 ⊢
+    omega
+
+theorem stable_readMovesLoop : ∀ (k k' N N' : Nat) (acc : List RawMove) (l : Bytes),
+    l.length < k → l.length < k' → l.length < N → l.length < N' →
+    run (readMovesLoop N k acc) l = run (readMovesLoop N' k' acc) l := by
+  intro k
+  induction k with
+  | zero => intro k' N N' acc l h; omega
+  | succ k ih =>
+    intro k' N N' acc l hk hk' hN hN'
+    cases k' with
+    | zero => omega
+    | succ k' =>
+      simp only [readMovesLoop, run_mbind]
+      rw [stable_readMove l N N' hN hN']
+      generalize hr : run (readMove N') l = r
+      obtain ⟨r, l'⟩ := r
+      cases r with
+      | error e => rfl
+      | ok m =>
+        cases m with
+        | none => rfl
+        | some mv =>
+          have hd := readMove_decreases _ _ _ _ hN' hr
+          exact ih k' N N' _ l' (by omega) (by omega) (by omega) (by omega)
+
+theorem stable_readMoves : Stable readMoves :=
+  stable_mbind (fun l n m hn hm => stable_readMovesLoop n m n m [] l hn hm hn hm) fun _ =>
+  stable_mbind (stable_attempt stable_skipToNextLine) fun _ => stable_const _
+
+theorem stable_readPgn : Stable readPgn :=
+  stable_mbind stable_readTagPairs fun _ =>
+  stable_mbind stable_skipBlankLines fun _ =>
+  stable_mbind stable_readMoves fun _ => stable_const _
+
+theorem stable_next : Stable next := by
+  unfold next
+  refine stable_pbind stable_skipBLS ?_
+  intro r
+  match r with
+  | .ok () => exact stable_pbind stable_readPgn fun _ => stable_const _
+  | .error .closed => exact stable_const _
+  | .error .consume => exact stable_const _
+  | .error .symbol => exact stable_const _
+
+theorem decr_mbind {α β : Type} (p : M α) (f : α → M β) (l : Bytes)
+    (hp : ∀ a l', run p l = (.ok a, l') → l'.length < l.length) :
+    ∀ b l', run (p >>=ₑ f) l = (.ok b, l') → l'.length < l.length := by
+  intro b l' h
+  rw [run_mbind] at h
+  generalize hr : run p l = r at h
+  obtain ⟨r, l1⟩ := r
+  cases r with
+  | error e => simp at h
+  | ok a =>
+    have h1 := hp a l1 hr
+    have h2 := run_length_le (f a) l1
+    simp only at h
+    rw [h] at h2
+    simp only at h2
+    omega
+
+theorem next_decreases (N : Nat) (l l' : Bytes) (g : RawGame) (hN : l.length < N)
+    (h : run (next N) l = (some (.ok g), l')) : l'.length < l.length := by
+  unfold next at h
+  rw [run_pbind, skipBLS_spec N l hN] at h
+  generalize hd : l.dropWhile isBlank = d at h
+  cases d with
+  | nil => simp at h
+  | cons c t =>
+    have hc := dropWhile_isBlank_head l c t hd
+    have hlen : (c :: t).length ≤ l.length := by rw [← hd]; exact length_dropWhile_le _ _
+    simp only [reduceCtorEq, if_false, run_pbind, run_ret] at h
+    have hg : run (readPgn N) (c :: t) = (.ok g, l') := by
+      generalize run (readPgn N) (c :: t) = r at h
+      obtain ⟨r, l1⟩ := r
+      simp only [Prod.mk.injEq, Option.some.injEq] at h
+      rw [h.1, h.2]
+    suffices l'.length < (c :: t).length by omega
+    revert hg
+    unfold readPgn readTagPairs
+    apply decr_mbind
+    cases N with
+    | zero => omega
+    | succ N' =>
+      intro a l1 h1
+      simp only [readTagPairsLoop, run_mbind, run_peekByte_cons] at h1
+      by_cases hb : c = 91
+      · simp only [hb, if_true] at h1
+        rw [← hb] at h1
+        exact decr_mbind _ _ _ (fun kv l2 h2 => readTagPairLine_decreases _ _ _ _ h2) a l1 h1
+      · have hnl : c ≠ NL := by
+          intro h0; simp [isBlank, h0] at hc
+        simp [hb, hnl] at h1
+
+theorem stable_readAllLoop : ∀ (k k' N N' : Nat) (acc : List Item) (l : Bytes),
+    l.length < k → l.length < k' → l.length < N → l.length < N' →
+    run (readAllLoop N k acc) l = run (readAllLoop N' k' acc) l := by
+  intro k
+  induction k with
+  | zero => intro k' N N' acc l h; omega
+  | succ k ih =>
+    intro k' N N' acc l hk hk' hN hN'
+    cases k' with
+    | zero => omega
+    | succ k' =>
+      simp only [readAllLoop, run_pbind]
+      rw [stable_next l N N' hN hN']
+      generalize hr : run (next N') l = r
+      obtain ⟨r, l'⟩ := r
+      match r, hr with
+      | none, _ => rfl
+      | some (.error e), _ => rfl
+      | some (.ok g), hr =>
+        have hd := next_decreases _ _ _ _ hN' hr
+        exact ih k' N N' _ l' (by omega) (by omega) (by omega) (by omega)
+
+/-- **fuel_adequate**: the fuel `input.length + 1` used by `readAll` never runs out – every larger fuel gives
+the same items -/
+theorem fuel_adequate (input : Bytes) (fuel : Nat) (h : input.length < fuel) :
+    (run (readAllProg fuel) input).1 = readAll input := by
+  unfold readAll readAllProg
+  rw [stable_readAllLoop fuel (input.length + 1) fuel (input.length + 1) [] input h (by omega) h (by omega)]
+
+/-! ## Part 2: the reader inverts the Lichess-layout printer -/
+
+open Inkayaku.PgnLayout
+
+@[simp] theorem SP_eq : SP = 32 := rfl
+@[simp] theorem NL_eq : NL = 10 := rfl
+
+theorem run_consume_same (c : UInt8) (t : Bytes) : run (consume c) (c :: t) = (.ok (), t) := by
+  simp [run_consume_cons]
+
+theorem takeWhile_append_stop (p : UInt8 → Bool) (pre r : Bytes) (hpre : ∀ a ∈ pre, p a = true)
+    (hr : ∀ b, r.head? = some b → p b = false) :
+    (pre ++ r).takeWhile p = pre ∧ (pre ++ r).dropWhile p = r := by
+  rw [List.takeWhile_append_of_pos hpre, List.dropWhile_append_of_pos hpre]
+  cases r with
+  | nil => simp
+  | cons b r' => simp [hr b rfl]
+
+theorem readUntil_append (c : UInt8) (n : Nat) (pre r : Bytes) (hpre : c ∉ pre)
+    (hn : (pre ++ c :: r).length < n) : run (readUntil n c) (pre ++ c :: r) = (.ok pre, c :: r) := by
+  rw [readUntil_spec c n _ hn]
+  obtain ⟨h1, h2⟩ := takeWhile_append_stop (· ≠ c) pre (c :: r)
+    (fun a ha => by simp; intro h; exact hpre (h ▸ ha)) (fun b hb => by simp at hb; simp [hb])
+  rw [h1, h2]; simp
+
+theorem readToken_append (n : Nat) (tok r : Bytes) (htok : ∀ a ∈ tok, isBlank a = false)
+    (hr : ∀ b, r.head? = some b → isBlank b = true)
+    (hn : (tok ++ r).length < n) : run (readToken n) (tok ++ r) = (.ok tok, r) := by
+  rw [readToken_spec n _ hn]
+  obtain ⟨h1, h2⟩ := takeWhile_append_stop (fun c => !isBlank c) tok r
+    (fun a ha => by simp [htok a ha]) (fun b hb => by simp [hr b hb])
+  rw [h1, h2]
+
+theorem readTagValue_spec (N : Nat) (v rest : Bytes) (hv : (34 : UInt8) ∉ v)
+    (hN : (34 :: (v ++ 34 :: rest)).length < N) :
+    run (readTagValue N) (34 :: (v ++ 34 :: rest)) = (.ok v, rest) := by
+  unfold readTagValue
+  rw [run_mbind_ok (run_consume_same _ _)]
+  rw [run_mbind_ok (a := .ok v) (l' := 34 :: rest)]
+  · rw [run_mbind_ok (run_consume_same _ _)]; rfl
+  · rw [run_attempt, readUntil_append 34 N v rest hv (by simp at hN ⊢; omega)]
+
+theorem readTagPairLine_spec (N : Nat) (k v rest : Bytes) (hk : (32 : UInt8) ∉ k) (hv : (34 : UInt8) ∉ v)
+    (hN : (renderTag (k, v) ++ rest).length < N) :
+    run (readTagPairLine N) (renderTag (k, v) ++ rest) = (.ok (k, v), rest) := by
+  have e : renderTag (k, v) ++ rest = 91 :: (k ++ 32 :: 34 :: (v ++ 34 :: 93 :: 10 :: rest)) := by
+    simp [renderTag]
+  rw [e] at hN ⊢
+  unfold readTagPairLine readTagName
+  simp only [SP_eq, NL_eq]
+  rw [run_mbind_ok (run_consume_same _ _)]
+  rw [run_mbind_ok (readUntil_append 32 N k _ hk (by simp at hN ⊢; omega))]
+  rw [run_mbind_ok (run_consume_same _ _)]
+  rw [run_mbind_ok (readTagValue_spec N v _ hv (by simp at hN ⊢; omega))]
+  rw [run_mbind_ok (run_consume_same _ _)]
+  rw [run_mbind_ok (run_consume_same _ _)]
+  rfl
+
+theorem tagInsert_fresh (k v : Bytes) : ∀ (acc : List (Bytes × Bytes)), k ∉ acc.map (·.1) →
+    tagInsert k v acc = acc ++ [(k, v)] := by
+  intro acc
+  induction acc with
+  | nil => intro _; rfl
+  | cons a acc ih =>
+    intro h
+    simp only [List.map_cons, List.mem_cons, not_or] at h
+    obtain ⟨k', v'⟩ := a
+    simp only [tagInsert]
+    rw [if_neg (fun h' => h.1 h'.symm), ih h.2]
+    rfl
+
+theorem readTagPairsLoop_spec (N : Nat) : ∀ (ts : List (Bytes × Bytes)) (k : Nat) (acc : List (Bytes × Bytes))
+    (rest : Bytes), (∀ t ∈ ts, (32 : UInt8) ∉ t.1 ∧ (34 : UInt8) ∉ t.2) → ((acc ++ ts).map (·.1)).Nodup →
+    (renderTags ts ++ 10 :: rest).length < N → (renderTags ts ++ 10 :: rest).length < k →
+    run (readTagPairsLoop N k acc) (renderTags ts ++ 10 :: rest) = (.ok (acc ++ ts), 10 :: rest) := by
+  intro ts
+  induction ts with
+  | nil =>
+    intro k acc rest _ _ _ hk
+    cases k with
+    | zero => omega
+    | succ k => simp [renderTags, readTagPairsLoop, run_mbind]
+  | cons t ts ih =>
+    intro k acc rest hwf hnd hN hk
+    obtain ⟨tk, tv⟩ := t
+    have e : renderTags ((tk, tv) :: ts) ++ 10 :: rest = renderTag (tk, tv) ++ (renderTags ts ++ 10 :: rest) := by
+      simp [renderTags]
+    rw [e] at hN hk ⊢
+    cases k with
+    | zero => omega
+    | succ k =>
+      have e2 : renderTag (tk, tv) ++ (renderTags ts ++ 10 :: rest)
+          = 91 :: (tk ++ 32 :: 34 :: (tv ++ 34 :: 93 :: 10 :: (renderTags ts ++ 10 :: rest))) := by
+        simp [renderTag]
+      have hlen : (renderTags ts ++ 10 :: rest).length + 1 ≤ (renderTag (tk, tv) ++ (renderTags ts ++ 10 :: rest)).length := by
+        rw [e2]; simp; omega
+      unfold readTagPairsLoop
+      rw [run_mbind_ok (a := 91) (l' := renderTag (tk, tv) ++ (renderTags ts ++ 10 :: rest)) (by rw [e2]; rfl)]
+      simp only [if_true]
+      have hw := hwf (tk, tv) (by simp)
+      rw [run_mbind_ok (readTagPairLine_spec N tk tv _ hw.1 hw.2 hN)]
+      simp only
+      have hfresh : tk ∉ acc.map (·.1) := by
+        intro hmem
+        simp only [List.map_append, List.map_cons] at hnd
+        have := (List.nodup_append.mp hnd).2.2 tk hmem tk (by simp)
+        exact this rfl
+      rw [tagInsert_fresh tk tv acc hfresh]
+      have := ih k (acc ++ [(tk, tv)]) rest (fun t ht => hwf t (by simp [ht])) (by simpa using hnd)
+        (by omega) (by omega)
+      simpa using this
+
+/-! ### Moves -/
+
+def toRawMove (m : Move) : RawMove := ⟨m.san, m.comment⟩
+def toRaw (g : Game) : RawGame := ⟨g.tags, g.moves.map toRawMove⟩
+
+/-- starts with a byte that is neither blank nor the start of an annotation -/
+def GoodStart (l : Bytes) : Prop := ∃ c t, l = c :: t ∧ c ≠ 32 ∧ c ≠ 10 ∧ c ≠ 123 ∧ c ≠ 59
+
+def GoodByte (c : UInt8) : Prop := c ≠ 32 ∧ c ≠ 10 ∧ c ≠ 46 ∧ c ≠ 123 ∧ c ≠ 59
+instance (c : UInt8) : Decidable (GoodByte c) := by unfold GoodByte; infer_instance
+
+theorem digit_good : ∀ (d : Nat), d < 10 → GoodByte (UInt8.ofNat (48 + d))
+  | 0, _ => by decide
+  | 1, _ => by decide
+  | 2, _ => by decide
+  | 3, _ => by decide
+  | 4, _ => by decide
+  | 5, _ => by decide
+  | 6, _ => by decide
+  | 7, _ => by decide
+  | 8, _ => by decide
+  | 9, _ => by decide
+  | n + 10, h => by omega
+
+theorem decimalAux_good : ∀ (fuel n : Nat) (acc : Bytes), (∀ a ∈ acc, GoodByte a) →
+    (∀ a ∈ decimalAux fuel n acc, GoodByte a) ∧ (acc ≠ [] ∨ 0 < fuel → decimalAux fuel n acc ≠ []) := by
+  intro fuel
+  induction fuel with
+  | zero => intro n acc h; exact ⟨h, fun h' => by simpa [decimalAux] using h'⟩
+  | succ f ih =>
+    intro n acc h
+    have hacc' : ∀ a ∈ UInt8.ofNat (48 + n % 10) :: acc, GoodByte a := by
+      intro a ha
+      rcases List.mem_cons.mp ha with h1 | h1
+      · rw [h1]; exact digit_good _ (Nat.mod_lt _ (by decide))
+      · exact h a h1
+    simp only [decimalAux]
+    split
+    · exact ⟨hacc', fun _ => by simp⟩
+    · exact ⟨(ih _ _ hacc').1, fun _ => (ih _ _ hacc').2 (Or.inl (by simp))⟩
+
+theorem decimal_good (n : Nat) : (∀ a ∈ decimal n, GoodByte a) ∧ decimal n ≠ [] :=
+  ⟨(decimalAux_good _ _ [] (by simp)).1, (decimalAux_good _ _ [] (by simp)).2 (Or.inr (by omega))⟩
+
+/-- a move-number token: non-empty, contains `.`, made of digits and `.` only -/
+def NumTok (t : Bytes) : Prop :=
+  (∃ c r, t = c :: r ∧ GoodByte c) ∧ (∀ a ∈ t, isBlank a = false) ∧ t.contains 46 = true
+
+theorem numTok_decimal (n : Nat) (dots : Bytes) (hd : dots = [46] ∨ dots = [46, 46, 46]) :
+    NumTok (decimal n ++ dots) := by
+  obtain ⟨h1, h2⟩ := decimal_good n
+  refine ⟨?_, ?_, ?_⟩
+  · cases hdn : decimal n with
+    | nil => exact absurd hdn h2
+    | cons c r => exact ⟨c, r ++ dots, by simp, h1 c (by simp [hdn])⟩
+  · intro a ha
+    rcases List.mem_append.mp ha with h | h
+    · have := h1 a h
+      simp [isBlank, this.1, this.2.1]
+    · have : a = 46 := by rcases hd with h' | h' <;> simp [h'] at h <;> exact h
+      rw [this]; decide
+  · rcases hd with h' | h' <;> simp [h']
+
+theorem numberPrefix_cases (nb : Bool) (i : Nat) :
+    numberPrefix nb i = [] ∨ ∃ t, numberPrefix nb i = t ++ [32] ∧ NumTok t := by
+  unfold numberPrefix
+  cases nb with
+  | false => exact Or.inl rfl
+  | true =>
+    simp only [if_true]
+    split
+    · exact Or.inr ⟨decimal (i / 2 + 1) ++ [46], by simp, numTok_decimal _ _ (Or.inl rfl)⟩
+    · exact Or.inr ⟨decimal (i / 2 + 1) ++ [46, 46, 46], by simp, numTok_decimal _ _ (Or.inr rfl)⟩
+
+def afterSan (m : Move) (more : Bytes) : Bytes :=
+  match m.comment with
+  | none => more
+  | some c => 123 :: (c ++ 125 :: 32 :: more)
+
+theorem afterSan_length (m : Move) (more : Bytes) : more.length ≤ (afterSan m more).length := by
+  unfold afterSan
+  cases m.comment <;> simp <;> omega
+
+theorem renderMove_eq (i : Nat) (m : Move) (more : Bytes) :
+    renderMove i m ++ more = numberPrefix m.numbered i ++ (m.san ++ 32 :: afterSan m more) := by
+  unfold renderMove afterSan renderComment
+  cases m.comment <;> simp
+
+theorem skipBLS_blanks (N : Nat) (pre : Bytes) (c : UInt8) (t : Bytes) (hpre : ∀ a ∈ pre, isBlank a = true)
+    (hc : isBlank c = false) (hN : (pre ++ c :: t).length < N) :
+    run (skipBlankLinesAndSpaces N) (pre ++ c :: t) = (.ok (), c :: t) := by
+  rw [skipBLS_spec N _ hN, List.dropWhile_append_of_pos hpre]
+  simp [hc]
+
+theorem skipSpaces_one (N : Nat) (c : UInt8) (t : Bytes) (hc : c ≠ 32) (hN : (32 :: c :: t).length < N) :
+    run (skipSpaces N) (32 :: c :: t) = (.ok (), c :: t) := by
+  rw [skipSpaces_spec N _ hN]
+  simp [isSp, hc]
+
+theorem isResultToken_no_dot (t : Bytes) (h : t.contains 46 = true) : isResultToken t = false := by
+  cases hr : isResultToken t with
+  | false => rfl
+  | true =>
+    simp only [isResultToken, Bool.or_eq_true, decide_eq_true_eq] at hr
+    rcases hr with ((h1 | h1) | h1) | h1 <;> (rw [h1] at h; exact absurd h (by decide))
+
+theorem san_facts (s : Bytes) (h : WFSan s) :
+    (∀ a ∈ s, isBlank a = false) ∧ isResultToken s = false ∧ s.contains 46 = false ∧
+    ∃ c r, s = c :: r ∧ c ≠ 32 ∧ c ≠ 10 ∧ c ≠ 123 ∧ c ≠ 59 := by
+  obtain ⟨h1, h2, h3, h4, h5, h6, h7⟩ := h
+  refine ⟨?_, ?_, ?_, ?_⟩
+  · intro a ha
+    have ha1 : a ≠ 32 := fun h' => h2 (h' ▸ ha)
+    have ha2 : a ≠ 10 := fun h' => h3 (h' ▸ ha)
+    simp [isBlank, ha1, ha2]
+  · simp only [resultTokens, Result.token, List.mem_cons, List.not_mem_nil, or_false, not_or] at h5
+    simp [isResultToken, h5.1, h5.2.1, h5.2.2.1, h5.2.2.2]
+  · simpa using h4
+  · cases s with
+    | nil => exact absurd rfl h1
+    | cons c r =>
+      refine ⟨c, r, rfl, ?_, ?_, ?_, ?_⟩
+      · intro h'; exact h2 (by simp [h'])
+      · intro h'; exact h3 (by simp [h'])
+      · intro h'; exact h6 (by simp [h'])
+      · intro h'; exact h7 (by simp [h'])
+
+/-- the part of `read_move` after the SAN token `mv` has been read -/
+theorem readMove_tail (N : Nat) (mv : Bytes) (m : Move) (more : Bytes) (hc : (125 : UInt8) ∉ m.comment.getD [])
+    (hmore : GoodStart more) (hN : (32 :: afterSan m more).length < N) :
+    run (skipSpaces N >>ₑ
+      peekByte >>=ₑ fun byte =>
+      (if byte = 123 then readBracedAnnotation N >>=ₑ fun a => M.pure (some a)
+       else if byte = 59 then readSemicolonAnnotation N >>=ₑ fun a => M.pure (some a)
+       else M.pure none) >>=ₑ fun annotation =>
+      M.pure (some (⟨mv, annotation⟩ : RawMove))) (32 :: afterSan m more)
+    = (.ok (some ⟨mv, m.comment⟩), if m.comment.isSome then 32 :: more else more) := by
+  obtain ⟨c, t, hct, h32, h10, h123, h59⟩ := hmore
+  unfold afterSan at hN ⊢
+  cases hcm : m.comment with
+  | none =>
+    simp only [hcm] at hN ⊢
+    subst hct
+    rw [run_mbind_ok (skipSpaces_one N c t h32 hN)]
+    rw [run_mbind_ok (run_peekByte_cons c t)]
+    rw [if_neg h123, if_neg h59]
+    rfl
+  | some cm =>
+    simp only [hcm, Option.getD_some] at hN hc ⊢
+    rw [run_mbind_ok (skipSpaces_one N 123 _ (by decide) hN)]
+    rw [run_mbind_ok (run_peekByte_cons 123 _)]
+    rw [if_pos rfl]
+    have hb : run (readBracedAnnotation N) (123 :: (cm ++ 125 :: 32 :: more)) = (.ok cm, 32 :: more) := by
+      unfold readBracedAnnotation
+      rw [run_mbind_ok (run_consume_same _ _)]
+      rw [run_mbind_ok (a := .ok cm) (l' := 125 :: 32 :: more)]
+      · rw [run_mbind_ok (run_consume_same _ _)]; rfl
+      · rw [run_attempt, readUntil_append 125 N cm _ hc (by simp at hN ⊢; omega)]
+    rw [run_mbind_ok (a := some cm) (l' := 32 :: more) (by rw [run_mbind_ok hb]; rfl)]
+    rfl
+
+theorem replicate_blank (j : Nat) (b : UInt8) (hb : isBlank b = true) :
+    ∀ a ∈ List.replicate j b, isBlank a = true := by
+  intro a ha
+  rw [(List.mem_replicate.mp ha).2]; exact hb
+
+/-- `read_move` on one rendered half-move (after any number of spaces) -/
+theorem readMove_move (N j i : Nat) (m : Move) (more : Bytes)
+    (hm : WFMove m) (hmore : GoodStart more)
+    (hN : (List.replicate j 32 ++ (renderMove i m ++ more)).length < N) :
+    run (readMove N) (List.replicate j 32 ++ (renderMove i m ++ more))
+      = (.ok (some (toRawMove m)), if m.comment.isSome then 32 :: more else more) := by
+  obtain ⟨hsan, hcomment⟩ := hm
+  obtain ⟨hs1, hs2, hs3, c, r, hs, hc32, hc10, hc123, hc59⟩ := san_facts m.san hsan
+  have hcb : isBlank c = false := by simp [isBlank, hc32, hc10]
+  rw [renderMove_eq] at hN ⊢
+  unfold readMove
+  rcases numberPrefix_cases m.numbered i with hp | ⟨t, hp, ⟨d, dr, hd, hdg⟩, ht2, ht3⟩
+  · -- no move number
+    rw [hp, List.nil_append] at hN ⊢
+    have hN' : (m.san ++ 32 :: afterSan m more).length < N := by simp at hN ⊢; omega
+    have e : m.san ++ 32 :: afterSan m more = c :: (r ++ 32 :: afterSan m more) := by rw [hs]; rfl
+    rw [run_mbind_ok (a := ()) (l' := m.san ++ 32 :: afterSan m more)
+      (by rw [e] at hN ⊢; exact skipBLS_blanks N _ c _ (replicate_blank j 32 (by decide)) hcb hN)]
+    rw [run_mbind_ok (readToken_append N m.san _ hs1 (fun b hb => by simp at hb; rw [← hb]; decide) hN')]
+    simp only [hs2, hs3, Bool.false_eq_true, if_false]
+    rw [run_mbind_ok (run_mpure m.san _)]
+    exact readMove_tail N m.san m more hcomment hmore (by simp at hN' ⊢; omega)
+  · -- move number token `t`, then a space
+    have hdb : isBlank d = false := by simp [isBlank, hdg.1, hdg.2.1]
+    have e : t ++ [32] ++ (m.san ++ 32 :: afterSan m more) = t ++ 32 :: (m.san ++ 32 :: afterSan m more) := by simp
+    rw [hp, e] at hN ⊢
+    have hN1 : (t ++ 32 :: (m.san ++ 32 :: afterSan m more)).length < N := by simp at hN ⊢; omega
+    have hN2 : (32 :: (m.san ++ 32 :: afterSan m more)).length < N := by simp at hN1 ⊢; omega
+    have hN3 : (m.san ++ 32 :: afterSan m more).length < N := by simp at hN2 ⊢; omega
+    have e2 : t ++ 32 :: (m.san ++ 32 :: afterSan m more) = d :: (dr ++ 32 :: (m.san ++ 32 :: afterSan m more)) := by
+      rw [hd]; rfl
+    rw [run_mbind_ok (a := ()) (l' := t ++ 32 :: (m.san ++ 32 :: afterSan m more))
+      (by rw [e2] at hN ⊢; exact skipBLS_blanks N _ d _ (replicate_blank j 32 (by decide)) hdb hN)]
+    rw [run_mbind_ok (readToken_append N t _ ht2 (fun b hb => by simp at hb; rw [← hb]; decide) hN1)]
+    simp only [isResultToken_no_dot t ht3, ht3, Bool.false_eq_true, if_false, if_true]
+    have hmv : run (skipSpaces N >>ₑ readToken N) (32 :: (m.san ++ 32 :: afterSan m more))
+        = (.ok m.san, 32 :: afterSan m more) := by
+      have e3 : m.san ++ 32 :: afterSan m more = c :: (r ++ 32 :: afterSan m more) := by rw [hs]; rfl
+      rw [run_mbind_ok (a := ()) (l' := m.san ++ 32 :: afterSan m more)
+        (by rw [e3] at hN2 ⊢; exact skipSpaces_one N c _ hc32 hN2)]
+      exact readToken_append N m.san _ hs1 (fun b hb => by simp at hb; rw [← hb]; decide) hN3
+    rw [run_mbind_ok hmv]
+    exact readMove_tail N m.san m more hcomment hmore (by simp at hN3 ⊢; omega)
+
+theorem result_token_facts (res : Result) :
+    isResultToken res.token = true ∧ (∀ a ∈ res.token, isBlank a = false) ∧
+    ∃ c r, res.token = c :: r ∧ c ≠ 32 ∧ c ≠ 10 ∧ c ≠ 123 ∧ c ≠ 59 := by
+  cases res <;> refine ⟨by decide, by decide, _, _, rfl, by decide, by decide, by decide, by decide⟩
+
+/-- `read_move` on the result token: `Ok(None)` -/
+theorem readMove_result (N j : Nat) (res : Result) (tail : Bytes)
+    (htail : ∀ b, tail.head? = some b → b = 10)
+    (hN : (List.replicate j 32 ++ (res.token ++ tail)).length < N) :
+    run (readMove N) (List.replicate j 32 ++ (res.token ++ tail)) = (.ok none, tail) := by
+  obtain ⟨h1, h2, c, r, hcr, hc32, hc10, _, _⟩ := result_token_facts res
+  have hcb : isBlank c = false := by simp [isBlank, hc32, hc10]
+  have hN' : (res.token ++ tail).length < N := by simp at hN ⊢; omega
+  unfold readMove
+  have e : res.token ++ tail = c :: (r ++ tail) := by rw [hcr]; rfl
+  rw [run_mbind_ok (a := ()) (l' := res.token ++ tail)
+    (by rw [e] at hN ⊢; exact skipBLS_blanks N _ c _ (replicate_blank j 32 (by decide)) hcb hN)]
+  rw [run_mbind_ok (readToken_append N res.token tail h2 (fun b hb => by rw [htail b hb]; decide) hN')]
+  simp only [h1, if_true]
+  rfl
+
+theorem goodStart_moves (res : Result) (tail : Bytes) : ∀ (ms : List Move) (i : Nat),
+    (∀ m ∈ ms, WFMove m) → GoodStart (renderMoves i ms ++ (res.token ++ tail)) := by
+  intro ms i hms
+  cases ms with
+  | nil =>
+    obtain ⟨_, _, c, r, hcr, h⟩ := result_token_facts res
+    exact ⟨c, r ++ tail, by simp [renderMoves, hcr], h⟩
+  | cons m ms =>
+    obtain ⟨_, _, _, c, r, hs, h⟩ := san_facts m.san (hms m (by simp)).1
+    simp only [renderMoves, List.append_assoc]
+    rw [renderMove_eq]
+    rcases numberPrefix_cases m.numbered i with hp | ⟨t, hp, ⟨d, dr, hd, hdg⟩, _, _⟩
+    · rw [hp, hs]; exact ⟨c, _, rfl, h⟩
+    · rw [hp, hd]; exact ⟨d, _, rfl, hdg.1, hdg.2.1, hdg.2.2.2.1, hdg.2.2.2.2⟩
+
+theorem readMovesLoop_spec (N : Nat) (res : Result) (tail : Bytes)
+    (htail : ∀ b, tail.head? = some b → b = 10) :
+    ∀ (ms : List Move) (i j k : Nat) (acc : List RawMove), (∀ m ∈ ms, WFMove m) →
+    (List.replicate j 32 ++ (renderMoves i ms ++ (res.token ++ tail))).length < N →
+    (List.replicate j 32 ++ (renderMoves i ms ++ (res.token ++ tail))).length < k →
+    run (readMovesLoop N k acc) (List.replicate j 32 ++ (renderMoves i ms ++ (res.token ++ tail)))
+      = (.ok (acc ++ ms.map toRawMove), tail) := by
+  intro ms
+  induction ms with
+  | nil =>
+    intro i j k acc _ hN hk
+    cases k with
+    | zero => omega
+    | succ k =>
+      simp only [renderMoves, List.nil_append] at hN ⊢
+      unfold readMovesLoop
+      rw [run_mbind_ok (readMove_result N j res tail htail hN)]
+      simp
+  | cons m ms ih =>
+    intro i j k acc hms hN hk
+    cases k with
+    | zero => omega
+    | succ k =>
+      simp only [renderMoves, List.append_assoc] at hN hk ⊢
+      have hgs := goodStart_moves res tail ms (i + 1) (fun m' h' => hms m' (by simp [h']))
+      unfold readMovesLoop
+      rw [run_mbind_ok (readMove_move N j i m _ (hms m (by simp)) hgs hN)]
+      simp only
+      have hlen : (renderMoves (i + 1) ms ++ (res.token ++ tail)).length + 2 ≤
+          (List.replicate j 32 ++ (renderMove i m ++ (renderMoves (i + 1) ms ++ (res.token ++ tail)))).length := by
+        obtain ⟨_, _, _, c, r, hs, _⟩ := san_facts m.san (hms m (by simp)).1
+        have := afterSan_length m (renderMoves (i + 1) ms ++ (res.token ++ tail))
+        rw [renderMove_eq, hs]
+        simp only [List.length_append, List.length_cons] at this ⊢
+        omega
+      cases hcm : m.comment with
+      | none =>
+        simp only [Option.isSome_none, Bool.false_eq_true, if_false]
+        have := ih (i + 1) 0 k (acc ++ [toRawMove m]) (fun m' h' => hms m' (by simp [h']))
+          (by simp only [List.replicate_zero, List.nil_append]; omega)
+          (by simp only [List.replicate_zero, List.nil_append]; omega)
+        simpa using this
+      | some cm =>
+        simp only [Option.isSome_some, if_true]
+        have := ih (i + 1) 1 k (acc ++ [toRawMove m]) (fun m' h' => hms m' (by simp [h']))
+          (by simp only [List.replicate_succ, List.replicate_zero, List.cons_append, List.nil_append, List.length_cons]; omega)
+          (by simp only [List.replicate_succ, List.replicate_zero, List.cons_append, List.nil_append, List.length_cons]; omega)
+        simpa using this
+
+theorem readMoves_spec (N : Nat) (res : Result) (tail : Bytes) (ms : List Move)
+    (htail : ∀ b, tail.head? = some b → b = 10) (hms : ∀ m ∈ ms, WFMove m)
+    (hN : (renderMoves 0 ms ++ (res.token ++ tail)).length < N) :
+    run (readMoves N) (renderMoves 0 ms ++ (res.token ++ tail)) = (.ok (ms.map toRawMove), tail.tail) := by
+  have h := readMovesLoop_spec N res tail htail ms 0 0 N [] hms
+    (by simpa using hN) (by simpa using hN)
+  simp only [List.replicate_zero, List.nil_append] at h
+  unfold readMoves
+  rw [run_mbind_ok h, run_mbind, run_attempt]
+  have hN' : tail.length < N := by simp at hN; omega
+  rw [skipToNextLine_spec N tail hN']
+  cases tail with
+  | nil => rfl
+  | cons b t =>
+    have hb : b = 10 := htail b rfl
+    subst hb
+    simp [notNl]
+
+theorem renderGame_eq (g : Game) (rest : Bytes) :
+    renderGame g ++ rest = renderTags g.tags ++
+      10 :: (renderMoves 0 g.moves ++ (g.result.token ++ (List.replicate g.trailing 10 ++ rest))) := by
+  simp [renderGame]
+
+theorem readPgn_spec (N : Nat) (g : Game) (rest : Bytes) (hg : WFGame g)
+    (hrest : 1 ≤ g.trailing ∨ rest = []) (hN : (renderGame g ++ rest).length < N) :
+    run (readPgn N) (renderGame g ++ rest) = (.ok (toRaw g), (List.replicate g.trailing 10 ++ rest).tail) := by
+  obtain ⟨_, htags, hnd, hms⟩ := hg
+  have htail : ∀ b, (List.replicate g.trailing 10 ++ rest).head? = some b → b = 10 := by
+    intro b hb
+    rcases hrest with h | h
+    · obtain ⟨n, hn⟩ : ∃ n, g.trailing = n + 1 := ⟨g.trailing - 1, by omega⟩
+      rw [hn, List.replicate_succ] at hb
+      simp at hb; exact hb.symm
+    · rw [h, List.append_nil] at hb
+      cases ht : g.trailing with
+      | zero => rw [ht] at hb; simp at hb
+      | succ n => rw [ht, List.replicate_succ] at hb; simp at hb; exact hb.symm
+  rw [renderGame_eq] at hN ⊢
+  unfold readPgn readTagPairs
+  rw [run_mbind_ok (readTagPairsLoop_spec N g.tags N [] _ htags (by simpa using hnd) hN hN)]
+  obtain ⟨c, t, hct, hc32, hc10, _, _⟩ := goodStart_moves g.result
+    (List.replicate g.trailing 10 ++ rest) g.moves 0 hms
+  have hN2 : (renderMoves 0 g.moves ++ (g.result.token ++ (List.replicate g.trailing 10 ++ rest))).length < N := by
+    simp only [List.length_append, List.length_cons] at hN ⊢; omega
+  rw [run_mbind_ok (a := ()) (l' := renderMoves 0 g.moves ++ (g.result.token ++ (List.replicate g.trailing 10 ++ rest)))
+    (by
+      rw [skipBlankLines_spec N _ (by simp only [List.length_append, List.length_cons] at hN ⊢; omega), hct]
+      simp [isNl, hc10])]
+  rw [run_mbind_ok (readMoves_spec N g.result _ g.moves htail hms hN2)]
+  rfl
+
+theorem renderGame_head (g : Game) (hg : WFGame g) (rest : Bytes) : ∃ t, renderGame g ++ rest = 91 :: t := by
+  obtain ⟨hne, _⟩ := hg
+  rw [renderGame_eq]
+  cases htg : g.tags with
+  | nil => exact absurd htg hne
+  | cons a as => exact ⟨_, by simp [renderTags, renderTag]; rfl⟩
+
+/-- `Iterator::next` on one rendered game (after any number of blank lines) -/
+theorem next_spec (N j : Nat) (g : Game) (rest : Bytes) (hg : WFGame g)
+    (hrest : 1 ≤ g.trailing ∨ rest = []) (hN : (List.replicate j 10 ++ (renderGame g ++ rest)).length < N) :
+    run (next N) (List.replicate j 10 ++ (renderGame g ++ rest))
+      = (some (.ok (toRaw g)), (List.replicate g.trailing 10 ++ rest).tail) := by
+  obtain ⟨t, ht⟩ := renderGame_head g hg rest
+  have hN' : (renderGame g ++ rest).length < N := by simp only [List.length_append] at hN ⊢; omega
+  unfold next
+  rw [run_pbind]
+  have h1 : run (skipBlankLinesAndSpaces N) (List.replicate j 10 ++ (renderGame g ++ rest))
+      = (.ok (), renderGame g ++ rest) := by
+    rw [ht] at hN ⊢
+    exact skipBLS_blanks N _ 91 t (replicate_blank j 10 (by decide)) (by decide) hN
+  rw [h1]
+  simp only [run_pbind, readPgn_spec N g rest hg hrest hN', run_ret]
+
+theorem render_cons (g : Game) (gs : List Game) : render (g :: gs) = renderGame g ++ render gs := by
+  simp [render]
+
+theorem readAllLoop_spec (N : Nat) : ∀ (gs : List Game) (j k : Nat) (acc : List Item), WFGames gs →
+    (List.replicate j 10 ++ render gs).length < N → (List.replicate j 10 ++ render gs).length < k →
+    (run (readAllLoop N k acc) (List.replicate j 10 ++ render gs)).1
+      = acc ++ gs.map (fun g => Item.game (toRaw g)) := by
+  intro gs
+  induction gs with
+  | nil =>
+    intro j k acc _ hN hk
+    cases k with
+    | zero => omega
+    | succ k =>
+      simp only [render, List.map_nil, List.flatten_nil, List.append_nil] at hN ⊢
+      unfold readAllLoop next
+      rw [run_pbind, run_pbind, skipBLS_spec N _ hN]
+      have : (List.replicate j (10 : UInt8)).dropWhile isBlank = [] := by
+        rw [List.dropWhile_replicate]; simp [isBlank]
+      rw [this]
+      simp
+  | cons g gs ih =>
+    intro j k acc hwf hN hk
+    cases k with
+    | zero => omega
+    | succ k =>
+      have hg : WFGame g := by
+        cases gs with
+        | nil => exact hwf
+        | cons g' gs' => exact hwf.1
+      have hrest : 1 ≤ g.trailing ∨ render gs = [] := by
+        cases gs with
+        | nil => exact Or.inr rfl
+        | cons g' gs' => exact Or.inl hwf.2.1
+      have hwf' : WFGames gs := by
+        cases gs with
+        | nil => trivial
+        | cons g' gs' => exact hwf.2.2
+      rw [render_cons] at hN hk ⊢
+      unfold readAllLoop
+      rw [run_pbind, next_spec N j g (render gs) hg hrest hN]
+      simp only
+      obtain ⟨t, ht⟩ := renderGame_head g hg (render gs)
+      have hlen : (List.replicate g.trailing 10 ++ render gs).length < (renderGame g ++ render gs).length := by
+        rw [renderGame_eq]
+        simp only [List.length_append, List.length_cons, List.length_replicate]
+        have := (result_token_facts g.result).2.2
+        obtain ⟨c, r, hcr, _⟩ := this
+        rw [hcr]; simp only [List.length_cons]; omega
+      have htl : ∃ j', (List.replicate g.trailing 10 ++ render gs).tail = List.replicate j' 10 ++ render gs ∧
+          j' ≤ g.trailing := by
+        rcases hrest with h | h
+        · obtain ⟨n, hn⟩ : ∃ n, g.trailing = n + 1 := ⟨g.trailing - 1, by omega⟩
+          exact ⟨n, by rw [hn, List.replicate_succ]; rfl, by omega⟩
+        · refine ⟨g.trailing - 1, ?_, by omega⟩
+          rw [h]
+          cases g.trailing with
+          | zero => rfl
+          | succ n => simp [List.replicate_succ]
+      obtain ⟨j', hj', hjle⟩ := htl
+      rw [hj']
+      have hlen' : (List.replicate j' 10 ++ render gs).length < (List.replicate j 10 ++ (renderGame g ++ render gs)).length := by
+        simp only [List.length_append, List.length_replicate] at hlen ⊢; omega
+      rw [ih j' k _ hwf' (by omega) (by omega)]
+      simp
+
+/-- **parse_render**: reading a rendered well-formed database yields exactly its games, in order, each with all
+tag pairs (in order) and all SAN moves with their comments (the bytes between the braces, untrimmed) -/
+theorem parse_render (gs : List Game) (h : WFGames gs) :
+    readAll (render gs) = gs.map (fun g => Item.game (toRaw g)) := by
+  have := readAllLoop_spec ((render gs).length + 1) gs 0 ((render gs).length + 1) [] h (by simp) (by simp)
+  simpa [readAll, readAllProg] using this
+
+#print axioms fuel_adequate
+#print axioms parse_render
+
+/-- **C17** for the real reader: for every well-formed database in the Lichess layout, every chunk size ≥ 1 and
+every fragmentation of the underlying reads, `PgnRawParser` yields exactly the games – in order, with all tag
+pairs and all SAN tokens (castling or not, first game or not) with their comments, and no error item.
+The SAN tokens are yielded verbatim (`toRawMove`), so replaying them is replaying the original game (SAN replay
+itself is property C14). -/
+theorem c17 (gs : List Game) (h : WFGames gs) (chunk : Nat) (sched : Nat → Nat)
+    (hchunk : 1 ≤ chunk) (hsched : ∀ k, 1 ≤ sched k) :
+    readAllBuffered chunk sched (render gs) = gs.map (fun g => Item.game (toRaw g)) := by
+  rw [chunk_independent _ chunk sched hchunk hsched, parse_render gs h]
+
+/-- the fuel of `readAllBuffered` is adequate as well -/
+theorem fuel_adequate_buffered (input : Bytes) (fuel : Nat) (h : input.length < fuel) (chunk : Nat)
+    (sched : Nat → Nat) (hchunk : 1 ≤ chunk) (hsched : ∀ k, 1 ≤ sched k) :
+    (run (readAllProg fuel) (Buffered.new ⟨input, sched, 0⟩ chunk)).1 = readAllBuffered chunk sched input := by
+  rw [chunk_independent_fuel fuel input chunk sched hchunk hsched, fuel_adequate input fuel h,
+    chunk_independent input chunk sched hchunk hsched]
+
+#print axioms c17
+#print axioms fuel_adequate_buffered
+
+/-! ## Concrete checks (kernel evaluation of the model, independent of the proofs above) -/
+
+/-- ASCII text to bytes -/
+def B (s : String) : Bytes := s.toUTF8.data.toList
+
+def mv (san : String) : RawMove := ⟨B san, none⟩
+def mvc (san c : String) : RawMove := ⟨B san, some (B c)⟩
+
+/-- 1: the real Lichess export (clock comments, `1...` after a comment, three line breaks after each game);
+both sides castle; the second game is read like the first -/
+def text1 : Bytes := B ("[Event \"Rated Blitz game\"]\n[Site \"https://lichess.org/abc\"]\n\n" ++
+  "1. e4 { [%clk 0:03:00] } 1... e5 { [%clk 0:03:00] } 2. Nf3 Nc6 3. Bc4 Bc5 4. O-O Nf6 5. d3 O-O 1/2-1/2\n\n\n" ++
+  "[Event \"x\"]\n\n1. d4 d5 2. Nc3 Nc6 3. Bf4 Bf5 4. Qd2 Qd7 5. O-O-O O-O-O 1-0\n\n\n")
+
+def items1 : List Item := [
+  .game ⟨[(B "Event", B "Rated Blitz game"), (B "Site", B "https://lichess.org/abc")],
+    [mvc "e4" " [%clk 0:03:00] ", mvc "e5" " [%clk 0:03:00] ", mv "Nf3", mv "Nc6", mv "Bc4", mv "Bc5",
+     mv "O-O", mv "Nf6", mv "d3", mv "O-O"]⟩,
+  .game ⟨[(B "Event", B "x")],
+    [mv "d4", mv "d5", mv "Nc3", mv "Nc6", mv "Bf4", mv "Bf5", mv "Qd2", mv "Qd7", mv "O-O-O", mv "O-O-O"]⟩]
+
+example : readAll text1 = items1 := by decide +kernel
+
+/-- 2: black `O-O` / `O-O-O` without move number, the result token directly followed by `\n\n[` of the next
+game, an empty comment, the last game without trailing newline -/
+def text2 : Bytes := B ("[White \"a\"]\n[Black \"b\"]\n\n1. e4 e5 2. Nf3 Nf6 3. Bc4 Bc5 4. O-O O-O 0-1\n\n" ++
+  "[White \"c\"]\n\n1. d4 {} d5 { book } 2. Nc3 Nc6 3. Bf4 Bf5 4. Qd2 Qd7 5. O-O-O O-O-O *\n\n" ++
+  "[White \"d\"]\n\n1. e4 1-0")
+
+def items2 : List Item := [
+  .game ⟨[(B "White", B "a"), (B "Black", B "b")],
+    [mv "e4", mv "e5", mv "Nf3", mv "Nf6", mv "Bc4", mv "Bc5", mv "O-O", mv "O-O"]⟩,
+  .game ⟨[(B "White", B "c")],
+    [mvc "d4" "", mvc "d5" " book ", mv "Nc3", mv "Nc6", mv "Bf4", mv "Bf5", mv "Qd2", mv "Qd7",
+     mv "O-O-O", mv "O-O-O"]⟩,
+  .game ⟨[(B "White", B "d")], [mv "e4"]⟩]
+
+example : readAll text2 = items2 := by decide +kernel
+
+/-- the same through the buffered reader: chunk 3 with reads of 2,1,5,… bytes (the buffer shrinks to 2, then 1),
+chunk 1, and one big chunk -/
+example : readAllBuffered 3 (fun k => [2, 1, 5].getD (k % 3) 1) text2 = items2 := by decide +kernel
+example : readAllBuffered 1 (fun _ => 1) text2 = items2 := by decide +kernel
+example : readAllBuffered 8192 (fun _ => 8192) text2 = items2 := by decide +kernel
+
+/-- 3: no move numbers at all, three games, a game without moves, one line break between games, `*` and `0-1` -/
+def text3 : Bytes := B ("[E \"1\"]\n\ne4 e5 Nf3 Nc6 Bb5 a6 O-O { castles } Be7 *\n" ++
+  "[E \"2\"]\n\n0-1\n" ++
+  "[E \"3\"]\n[R \"1/2-1/2\"]\n\nd4 { [%clk 0:01:00] } d5 { [%clk 0:00:59] } 1/2-1/2\n")
+
+def items3 : List Item := [
+  .game ⟨[(B "E", B "1")],
+    [mv "e4", mv "e5", mv "Nf3", mv "Nc6", mv "Bb5", mv "a6", mvc "O-O" " castles ", mv "Be7"]⟩,
+  .game ⟨[(B "E", B "2")], []⟩,
+  .game ⟨[(B "E", B "3"), (B "R", B "1/2-1/2")], [mvc "d4" " [%clk 0:01:00] ", mvc "d5" " [%clk 0:00:59] "]⟩]
+
+example : readAll text3 = items3 := by decide +kernel
+example : readAllBuffered 4 (fun k => [3, 1].getD (k % 2) 1) text3 = items3 := by decide +kernel
+
+/-- the three texts are what the layout printer produces for well-formed databases, so `parse_render` (and
+`c17`) apply to them; the kernel evaluations above agree with the theorem -/
+def games2 : List Game := [
+  ⟨[(B "White", B "a"), (B "Black", B "b")],
+    Numbering.white.apply [(B "e4", none), (B "e5", none), (B "Nf3", none), (B "Nf6", none), (B "Bc4", none),
+      (B "Bc5", none), (B "O-O", none), (B "O-O", none)], .blackWins, 2⟩,
+  ⟨[(B "White", B "c")],
+    Numbering.white.apply [(B "d4", some []), (B "d5", some (B " book ")), (B "Nc3", none), (B "Nc6", none),
+      (B "Bf4", none), (B "Bf5", none), (B "Qd2", none), (B "Qd7", none), (B "O-O-O", none), (B "O-O-O", none)],
+    .unknown, 2⟩,
+  ⟨[(B "White", B "d")], Numbering.white.apply [(B "e4", none)], .whiteWins, 0⟩]
+
+example : render games2 = text2 := by decide +kernel
+example : WFGames games2 := by decide +kernel
+example : games2.map (fun g => Item.game (toRaw g)) = items2 := by decide +kernel
+example : readAll text2 = items2 := by
+  have h := parse_render games2 (by decide +kernel)
+  rw [show render games2 = text2 by decide +kernel,
+    show games2.map (fun g => Item.game (toRaw g)) = items2 by decide +kernel] at h
+  exact h
+
+def games1 : List Game := [
+  ⟨[(B "Event", B "Rated Blitz game"), (B "Site", B "https://lichess.org/abc")],
+    Numbering.lichess.apply [(B "e4", some (B " [%clk 0:03:00] ")), (B "e5", some (B " [%clk 0:03:00] ")),
+      (B "Nf3", none), (B "Nc6", none), (B "Bc4", none), (B "Bc5", none), (B "O-O", none), (B "Nf6", none),
+      (B "d3", none), (B "O-O", none)], .draw, 3⟩,
+  ⟨[(B "Event", B "x")],
+    Numbering.lichess.apply [(B "d4", none), (B "d5", none), (B "Nc3", none), (B "Nc6", none), (B "Bf4", none),
+      (B "Bf5", none), (B "Qd2", none), (B "Qd7", none), (B "O-O-O", none), (B "O-O-O", none)], .whiteWins, 3⟩]
+
+example : render games1 = text1 ∧ LichessGames games1 := by decide +kernel
+
+def games3 : List Game := [
+  ⟨[(B "E", B "1")],
+    Numbering.none.apply [(B "e4", none), (B "e5", none), (B "Nf3", none), (B "Nc6", none), (B "Bb5", none),
+      (B "a6", none), (B "O-O", some (B " castles ")), (B "Be7", none)], .unknown, 1⟩,
+  ⟨[(B "E", B "2")], [], .blackWins, 1⟩,
+  ⟨[(B "E", B "3"), (B "R", B "1/2-1/2")],
+    Numbering.none.apply [(B "d4", some (B " [%clk 0:01:00] ")), (B "d5", some (B " [%clk 0:00:59] "))], .draw, 1⟩]
+
+example : render games3 = text3 ∧ WFGames games3 := by decide +kernel
+
+/-- the hypotheses of `c17` are satisfiable by a non-trivial value -/
+example : readAllBuffered 3 (fun k => [2, 1, 5].getD (k % 3) 1) (render games2) = items2 := by
+  rw [c17 games2 (by decide +kernel) 3 _ (by decide) (fun k => by
+    have : k % 3 < 3 := Nat.mod_lt _ (by decide)
+    generalize k % 3 = j at this
+    match j, this with
+    | 0, _ => decide
+    | 1, _ => decide
+    | 2, _ => decide)]
+  decide +kernel
+
+/-- `WFGames` is not vacuous in the other direction: the conditions are needed.  A SAN token that is a result
+token ends the game early, and a game without trailing line break in the middle swallows the next tag line. -/
+example : readAll (B "[a \"b\"]\n\ne4 1-0[c \"d\"]\n\nd4 *") ≠
+    [.game ⟨[(B "a", B "b")], [mv "e4"]⟩, .game ⟨[(B "c", B "d")], [mv "d4"]⟩] := by decide +kernel
 
 end Inkayaku.C17
